@@ -88,15 +88,21 @@ ASSUME Reflexive /\ Transitive /\ ByteIsU8
 -----------------------------------------------------------------------------
 (* Enumerator: one state per (S, T, position). *)
 CONSTANT Positions
-VARIABLES s, t, pos
-vars == <<s, t, pos>>
+(* the shape of the converted expression: a variable of the source type, or an operator expression / call
+   whose type is the source type by the typing rules (x / y, x * y, -x and f(x) of operands of type S have type
+   S).  The conversion rule looks at the type of the expression, not at its shape. *)
+Shapes == {"var", "div", "mul", "call"}
+ShapedPositions == {"let", "arg", "ret", "field", "elem"}
+VARIABLES s, t, pos, shape
+vars == <<s, t, pos, shape>>
 
-Init == s \in Types /\ t \in Types /\ pos \in Positions
+Init == s \in Types /\ t \in Types /\ pos \in Positions /\ shape \in Shapes
+        /\ (shape # "var" => pos \in ShapedPositions)
 Next == UNCHANGED vars
 Spec == Init /\ [][Next]_vars
 
-Case == [ src |-> s.n, dst |-> t.n, pos |-> pos, same |-> (s = t),
+Case == [ src |-> s.n, dst |-> t.n, pos |-> pos, same |-> (s = t), shape |-> shape,
           lossless |-> Lossless(s, t),
-          key |-> "C11|" \o s.n \o "->" \o t.n \o "|" \o pos ]
+          key |-> "C11|" \o s.n \o "->" \o t.n \o "|" \o pos \o (IF shape = "var" THEN "" ELSE "|" \o shape) ]
 EmitCase == PrintT("@@CASE " \o ToJson(Case))
 =============================================================================
